@@ -327,7 +327,9 @@ def run_shard_proc(prop, tier, seed, shard, root, only=None, timeout=1800, dev=F
     env = dict(os.environ)
     env[GUARD] = "1"
     env["PYTHONHASHSEED"] = "0"
-    env["PYTHONPATH"] = VERIF + os.pathsep + env.get("PYTHONPATH", "")
+    # REPO/src first: wins over the editable install, so a scratch worktree can be checked
+    # with COOLER_VERIF_REPO=<worktree> (default /repo)
+    env["PYTHONPATH"] = os.path.join(REPO, "src") + os.pathsep + VERIF
     env.setdefault("OMP_NUM_THREADS", "1")
     env.setdefault("OPENBLAS_NUM_THREADS", "1")
     env["HDF5_USE_FILE_LOCKING"] = env.get("HDF5_USE_FILE_LOCKING", "FALSE")
